@@ -129,7 +129,10 @@ where
         let res: &mut LWE<&mut [u8]> = &mut res.to_mut();
         let other: &LWECompressed<&[u8]> = &other.to_ref();
 
-        assert_eq!(res.lwe_layout(), other.lwe_layout());
+        // LWECompressed keeps only the body (one coefficient per limb): its n() is the degree of that
+        // buffer, not the LWE dimension, so the full layouts never compare equal for n_lwe != 1.
+        assert_eq!(res.base2k(), other.base2k());
+        assert_eq!(res.size(), other.size());
 
         let mut source: Source = Source::new(other.seed);
         self.vec_znx_fill_uniform(other.base2k().into(), &mut res.data, 0, &mut source);
